@@ -31,8 +31,11 @@ func (u *URL) formatSSH() string {
 		result = fmt.Sprintf("%s@%s", u.User, result)
 	}
 
-	// Add port if present.
-	if u.Port != 0 {
+	// Add port if present. A zero port is also written out if the path begins
+	// with something that the SCP-style parser would take for a port
+	// specification (e.g. the URL parsed from "host:0:80:path"), because the
+	// result wouldn't otherwise parse back to the same URL.
+	if u.Port != 0 || pathResemblesPortSpecification(u.Path) {
 		result = fmt.Sprintf("%s:%d", result, u.Port)
 	}
 
@@ -41,6 +44,20 @@ func (u *URL) formatSSH() string {
 
 	// Done.
 	return result
+}
+
+// pathResemblesPortSpecification returns whether or not the SCP-style SSH URL
+// parser would interpret the start of a path as a port specification, i.e.
+// whether or not the path begins with a (possibly empty) sequence of digits
+// followed by a colon.
+func pathResemblesPortSpecification(path string) bool {
+	for _, r := range path {
+		if '0' <= r && r <= '9' {
+			continue
+		}
+		return r == ':'
+	}
+	return false
 }
 
 // invalidDockerURLFormat is the value returned by formatDocker when a URL is
